@@ -2397,7 +2397,9 @@ def plss_walk(case):
     for t in d.tracts:
         sec = num2tok.get(int(t.sec), -1) if isinstance(t.sec, str) and t.sec.isdigit() else -1
         tracts.append({"tr": tr_by_short.get(t.twprge, -1), "sec": sec,
-                       "marks": [m for m in marks if R.marker(m) in (t.desc or "")]})
+                       # (in the order in which they stand in the description - the walk model predicts the order too)
+                       "marks": sorted([m for m in marks if R.marker(m) in (t.desc or "")],
+                                       key=lambda m: (t.desc or "").find(R.marker(m)))})
     unused, kinds = [], []
     for f in d.e_flags:
         if not isinstance(f, str):
